@@ -12,6 +12,7 @@ import SwcVerif.Model.Population
 import SwcVerif.Model.Resample
 import SwcVerif.Model.Mst
 import SwcVerif.Model.Views
+import SwcVerif.Model.Images
 
 def dispatch (op : String) (args : List String) : String :=
   match op with
@@ -34,6 +35,7 @@ def dispatch (op : String) (args : List String) : String :=
   | "iso" | "lin" | "smooth" => Resample.handle op args
   | "mst" => Mst.handle args
   | "views" => Views.handle args
+  | "imgaxes" | "imggrid" => Img.handle op args
   | "swcline" => SwcText.handleLine args
   | "swcread" => SwcText.handleRead args
   | "swcwrite" => SwcText.handleWrite args
